@@ -48,6 +48,22 @@ example : chunkedDecision true false false 200 = true := by decide
 example : chunkedDecision true false true 200 = false := by decide
 example : chunkedDecision true false false 304 = false := by decide
 
+/-! ### structure of the I/O calls (what the byte-list model of `rfile` presupposes) -/
+
+/-- **The de-chunker reads with the blocking `read(n)`, and header values are only unfolded** — read
+off the AST of the live `serving.py` on every run. `DechunkedInput` calls nothing on `self._rfile`
+but `readline()` (size lines, terminators) and one `read(n)` for chunk payload: the model's
+`rfile.read n` ("n bytes unless the stream ends") is `BufferedReader.read`, not `read1` / `recv`,
+which would hand over only what has already arrived and make a chunk that is larger than the
+handler's 8 KiB buffer, or that arrives in two TCP segments, look like a body that ended inside a
+chunk. And in `make_environ`'s header loop the value is rewritten by `value.replace("\r\n", "")`
+(and the comma-join) only — what `foldHeaders` / `header_folding` transcribe — so no other byte of
+a latin-1 header value (`\x0b`, `\x0c`, `\x1c`–`\x1e`, `\x85`, …) is dropped. -/
+theorem serving_io_structure :
+    rfileMethodsAreReadAndReadline = true ∧ payloadReadIsBlocking = true ∧ sizeLineIsReadline = true ∧
+    unfoldIsReplaceCrlf = true := by
+  decide
+
 /-! ### request side: DechunkedInput -/
 
 /-- **Size lines round-trip**: the size line a client writes for a chunk of `n` bytes — lower or upper
